@@ -17,6 +17,7 @@ import grd
 import lin
 import pan
 import summ
+import summ2
 import sym
 import tbl
 from c16 import field_path
@@ -54,6 +55,30 @@ def child_specs(sc):
                     how = "data" if base == "OwnedData" else "direct"
                 kids.append((f["name"], how))
             out[(ty, v["name"], v["idx"])] = kids
+    return out
+
+
+def nested_schemas(sc, variant_or_struct, prefix, depth=0):
+    """access paths (in field_path vocabulary) of every OwnedDataModelType nested in the fields of a variant, through OwnedData / OwnedVariant /
+    OwnedNamedField / Box / boxed slices; slices contribute a '[*]' step"""
+    out = []
+    if depth > 4:
+        return out
+    for f in variant_or_struct["fields"]:
+        t = f["ty"]
+        if not any(s in t for s in SCHEMA_TYS) and "Self" not in t:
+            continue
+        step = prefix + (f["name"],)
+        if "[" in t:
+            step = step + ("[*]",)
+        base = t.replace("std::boxed::Box<", "").replace(">", "").strip("[]").split("::")[-1]
+        if base in ("OwnedDataModelType", "Self"):
+            out.append(step)
+        elif base in ("OwnedData", "OwnedVariant", "OwnedNamedField"):
+            a = sc.adts["postcard_schema::schema::owned::" + base]
+            for v in a["variants"]:
+                p2 = step + (("as " + v["name"],) if a["kind"] == "Enum" else ())
+                out += nested_schemas(sc, v, p2, depth + 1)
     return out
 
 
@@ -116,118 +141,149 @@ def run(run_, ctx):
     for f in fns:
         run_.ok("P", summ.fn_key(f) + " scanned", "all paths explored for panic sites", f.where())
     run_.floor("P", 10)
-    # ---- E: entry points --------------------------------------------------------------------------------------------
-    ENTRY = {
-        "<schema::owned::OwnedDataModelType as ->::to_pseudocode": ["if always: #1 = std::string::String::new(); #2 = schema::fmt::fmt_owned_dmt_to_buf(self, &{#1}, true) => after#2(_local)"],
-        "<schema::owned::OwnedDataModelType as ->::all_used_types": ["if always: #1 = std::collections::HashSet::<T>::new(); #2 = schema::fmt::discover_tys(self, &{#1}) => after#2(_local)"],
-        "<schema::owned::OwnedDataModelType as Display>::fmt": ["if always: #1 = schema::owned::OwnedDataModelType::to_pseudocode(self); #2 = <std::string::String as Deref>::deref(&{#1}); #3 = std::fmt::Formatter::<'a>::write_str(arg2, #2) => #3"],
-    }
+    # ---- roots by signature ------------------------------------------------------------------------------------------
+    def sig(f):
+        return [re.sub(r"'\w+ ", "", l["ty"]) for l in f.locals[1:f.argc + 1]]
+    fmtroot = [f for f in fns if f.dk == "Fn" and sig(f) == ["&schema::owned::OwnedDataModelType", "&mut std::string::String", "bool"]]
+    walkroot = [f for f in fns if f.dk == "Fn" and len(sig(f)) == 2 and sig(f)[0] == "&schema::owned::OwnedDataModelType" and "HashSet<" in sig(f)[1]]
+    # ---- E: entry points (hand-written, in the vocabulary of the semantic summaries; helpers stay calls here) --------------------------
     byk = {summ.fn_key(f): f for f in fns}
-    for k, want in ENTRY.items():
+    noinl = lambda g, ev: False
+    if len(fmtroot) == 1 and len(walkroot) == 1:
+        fr, wr = fmtroot[0].def_, walkroot[0].def_
+        ENTRY = {
+            "<schema::owned::OwnedDataModelType as ->::to_pseudocode": ["#1 = %s(self, &{String::new()}, true) => after#1(~)" % fr],
+            "<schema::owned::OwnedDataModelType as ->::all_used_types": ["#1 = %s(self, &{HashSet::new()}, true) => after#1(~)".replace(", true", "") % wr],
+        }
+        for k, want in ENTRY.items():
+            if k not in byk:
+                run_.bad("E", k, "entry point not found")
+                continue
+            got = [o["text"] for o in summ2.summarize(F, byk[k], inline=noinl)["outcomes"]]
+            run_.check(got == want, "E", k, "entry point must render/collect the whole schema as a top-level type into a fresh buffer/set and return it", byk[k].where(),
+                       expected=want, found=got)
+        k = "<schema::owned::OwnedDataModelType as Display>::fmt"
         if k in byk:
-            summ.check(run_, "E", byk[k], want, F, what="entry point renders/collects the whole schema as a top-level type")
+            got = [o["text"] for o in summ2.summarize(F, byk[k], inline=lambda g, ev: g.name == "to_pseudocode")["outcomes"]]
+            okd = len(got) == 2 and all(t.startswith("#1 = %s(self, &{String::new()}, true); #2 = std::fmt::Formatter::<'a>::write_str(arg2, deref(&{after#1(~)}))" % fr) for t in got)
+            run_.check(okd, "E", k, "Display must write exactly the pseudocode rendering", byk[k].where(), found=got)
         else:
             run_.bad("E", k, "entry point not found")
-    run_.floor("E", 3)
-    # ---- X -------------------------------------------------------------------------------------------------------
-    specs = child_specs(sc)
-    disc = [f for f in fns if f.name == "discover_tys" and f.dk == "Fn"]
-    clos = [f for f in fns if f.canon.startswith("postcard_schema::schema::fmt::discover_tys::{closure")]
-    if len(disc) == 1 and len(clos) == 1:
-        for fn_, ty, subj in ((disc[0], "OwnedDataModelType", 1), (clos[0], "OwnedData", 2)):
-            eng = sym.Engine(F, max_visits=3)
-            arms = {}
-            insert_ok = True
-            for p in eng.run(fn_):
-                if p.status not in ("return", "cut"):
-                    continue
-                k = None
-                for atom, v in p.tagfacts.items():
-                    if atom[0] == "tag" and isinstance(v, int) and field_path(atom[1]) == ("arg%d" % subj,):
-                        k = v
-                arms.setdefault(k, []).append(visit_events(F, fn_, p))
-                if fn_ is disc[0]:
-                    evs = tbl.residual_calls(p)
-                    ins = [e for e in evs if e["name"] == "insert"]
-                    okp = (len(evs) >= 2 and evs[0]["name"] == "clone" and norm(evs[0]["args"][0]) == ("param", 1, fn_.locals[1]["ty"])
-                           and evs[1]["name"] == "insert" and norm(evs[1]["args"][0]) == ("param", 2, fn_.locals[2]["ty"])
-                           and norm(evs[1]["args"][1]) == norm(evs[0]["result"]) and len(ins) == 1)
-                    insert_ok = insert_ok and okp
-                else:
-                    if [e for e in tbl.residual_calls(p) if e["name"] == "insert"]:
-                        insert_ok = False
-            if fn_ is disc[0]:
-                run_.check(insert_ok, "X", "insert visited node", "the walker must insert exactly the visited node, unconditionally, before looking at its kind",
-                           fn_.where(), detail="set.insert(ty.clone()) first on every path; no other insertion")
-            for (t, vname, vidx), kids in sorted(specs.items(), key=lambda kv: (kv[0][0], kv[0][2])):
-                if t != ty:
-                    continue
-                key = "%s::%s" % (ty, vname)
-                lists = arms.get(vidx)
-                if lists is None:
-                    run_.bad("X", key, "no arm of the walker handles this variant", fn_.where())
-                    continue
-                probs = []
-                flat = set(x for l in lists for x in l)
-                for fname, how in kids:
-                    base = ("arg%d" % subj, "as " + vname, fname)
-                    if how == "direct":
-                        want = ("rec", base)
-                    elif how == "data":
-                        want = ("data", base)
-                    elif how == "elems":
-                        want = ("rec", base + ("[*]",))
-                    elif how == "variants":
-                        want = ("data", base + ("[*]", "data"))
-                    else:
-                        want = ("rec", base + ("[*]", "ty"))
-                    if want not in flat:
-                        probs.append("nested schema(s) in %s.%s are never visited (%s)" % (vname, fname, how))
-                    if how in ("elems", "variants", "fields"):
-                        # the element visit must be inside the loop: appear once per iteration
-                        per = [l.count(want) for l in lists]
-                        if max(per or [0]) < 2:
-                            probs.append("elements of %s.%s are not visited once per element" % (vname, fname))
-                extra = [x for x in flat if not any(x[1][:3] == ("arg%d" % subj, "as " + vname, f) for f, _ in kids)]
-                if extra:
-                    probs.append("visits something that is not a child of this node: %s" % (extra[:2],))
-                run_.check(not probs, "X", key, probs[0] if probs else "children visited: %s" % ([f for f, _ in kids] or "none (leaf)"), fn_.where(), found=probs)
     else:
-        run_.bad("X", "discover_tys", "walker / data closure not found (found %d/%d)" % (len(disc), len(clos)))
-    run_.floor("X", 31)
-    # ---- N -------------------------------------------------------------------------------------------------------
-    fm = [f for f in fns if f.name == "fmt_owned_dmt_to_buf" and f.dk == "Fn"]
-    if len(fm) == 1:
-        ls = summ.lines(summ.summarize(F, fm[0]))
-        st = [l for l in ls if re.search(r"tag\(\*arg1\) == 23\b", l) and ("arg3 == True" in l or re.search(r"(^if |&& )arg3( &&|:)", l))]
-        en = [l for l in ls if re.search(r"tag\(\*arg1\) == 24\b", l) and ("arg3 == True" in l or re.search(r"(^if |&& )arg3( &&|:)", l))]
-        oks = len(st) == 1 and "add_assign(arg2, ((*arg1 as Struct).name" in st[0] and "call(&{closure()}, (&(*arg1 as Struct).data, arg2))" in st[0]
-        run_.check(oks, "N", "struct name + fields", "a top-level struct must render its name and hand its data to the field formatter", fm[0].where(), found=st)
-        oke = len(en) == 1 and "add_assign(arg2, ((*arg1 as Enum).name" in en[0] and "iter(((*arg1 as Enum).variants" in en[0] and "Iterator>::map(" in en[0]
-        run_.check(oke, "N", "enum name + variants", "a top-level enum must render its name and map every variant through the variant formatter", fm[0].where(), found=en)
-        cl = {f.canon.rsplit("::", 1)[-1]: f for f in fns if f.canon.startswith(fm[0].canon + "::{closure")}
-        # variant closure: name then data
-        vcl = [f for f in cl.values() if any("name" in l and "data" in l for l in summ.lines(summ.summarize(F, f)))]
+        run_.bad("E", "roots", "formatter / walker root not found by signature (found %d/%d)" % (len(fmtroot), len(walkroot)))
+    run_.floor("E", 3)
+    # ---- X: the walker visits every nested schema of every node kind (children computed from the ADT tables) --------------------------
+    if len(walkroot) == 1:
+        root = walkroot[0]
+        pol = lambda g, ev: g.crate == "postcard_schema" and "schema::fmt::" in g.canon and g.canon != root.canon
+        eng = sym.Engine(F, max_visits=3, inline=pol, models=sym.SLICE_MODELS, max_depth=10)
+        arms = {}
+        insert_ok = True
+        for p in eng.run(root):
+            if p.status not in ("return", "cut"):
+                continue
+            k = None
+            for atom, v in p.tagfacts.items():
+                if atom[0] == "tag" and isinstance(v, int) and field_path(atom[1]) == ("arg1",):
+                    k = v
+            evs = tbl.residual_calls(p)
+            visits = []
+            for e in evs:
+                cn = (e["callee"] or {}).get("canon")
+                rc = ((e["callee"] or {}).get("resolved") or {}).get("canon")
+                if root.canon in (cn, rc):
+                    visits.append(tuple("[*]" if re.match(r"^\[\d+\]$|^\[\?\]$", x) else x for x in field_path(e["args"][0])))
+            arms.setdefault(k, []).append(visits)
+            ins = [e for e in evs if e["name"] == "insert" and "HashSet" in (e["key"] or "")]
+            okp = (len(ins) == 1 and norm(ins[0]["args"][0]) == ("param", 2, root.locals[2]["ty"]) and norm(ins[0]["args"][1])[0] == "call"
+                   and (norm(ins[0]["args"][1])[2] or "").endswith("Clone::clone") and norm(norm(ins[0]["args"][1])[3][0]) == ("param", 1, root.locals[1]["ty"])
+                   and not any(root.canon in ((e["callee"] or {}).get("canon"), ((e["callee"] or {}).get("resolved") or {}).get("canon")) for e in evs[:evs.index(ins[0])]))
+            insert_ok = insert_ok and okp
+        run_.check(insert_ok, "X", "insert visited node", "the walker must insert exactly the visited node, unconditionally, before descending", root.where(),
+                   detail="set.insert(ty.clone()) once on every path, before any recursion; no other insertion")
+        adt_ = sc.adts["postcard_schema::schema::owned::OwnedDataModelType"]
+        for v in adt_["variants"]:
+            want = set(nested_schemas(sc, v, ("arg1", "as " + v["name"])))
+            key = "OwnedDataModelType::%s" % v["name"]
+            lists = arms.get(v["idx"])
+            if lists is None:
+                run_.bad("X", key, "no arm of the walker handles this variant", root.where())
+                continue
+            flat = set(x for l in lists for x in l)
+            probs = []
+            for w in sorted(want - flat):
+                probs.append("nested schema(s) at %s are never visited" % "/".join(w[1:]))
+            for x in sorted(flat - want):
+                probs.append("visits something that is not a nested schema of this node: %s" % "/".join(x))
+            for w in sorted(want & flat):
+                if "[*]" in w and max(l.count(w) for l in lists) < 2:
+                    probs.append("elements at %s are not visited once per element" % "/".join(w[1:]))
+            run_.check(not probs, "X", key, probs[0] if probs else "children visited: %s" % (sorted("/".join(w[1:]) for w in want) or "none (leaf)"), root.where(), found=probs)
+    else:
+        run_.bad("X", "discover_tys", "walker root not found by signature")
+    run_.floor("X", 27)
+    # ---- N: names are rendered: the formatter's appends to the buffer, read with its closures analysed in place ---------------------------
+    if len(fmtroot) == 1:
+        root = fmtroot[0]
+        pol = lambda g, ev: g.crate == "postcard_schema" and "schema::fmt::" in g.canon and g.canon != root.canon
+        eng = sym.Engine(F, max_visits=3, inline=pol, models=sym.SLICE_MODELS, max_depth=10)
+        dmt = [v["name"] for v in sc.adts["postcard_schema::schema::owned::OwnedDataModelType"]["variants"]]
+        st_ok, en_ok, fld = [], [], []
+        APPEND = ("add_assign", "push_str")
+        for p in eng.run(root):
+            if p.status not in ("return", "cut"):
+                continue
+            k = None
+            for atom, v in p.tagfacts.items():
+                if atom[0] == "tag" and isinstance(v, int) and field_path(atom[1]) == ("arg1",):
+                    k = v
+            top = any(norm(c) == ("param", 3, "bool") and t is True for c, t, kk in p.pc)
+            name = dmt[k] if k is not None and k < len(dmt) else None
+            if not top or name not in ("Struct", "Enum"):
+                continue
+            seq = []
+            for e in tbl.residual_calls(p):
+                if e["name"] in APPEND and len(e["args"]) == 2:
+                    seq.append(("app", field_path(e["args"][1])))
+                elif root.canon in ((e["callee"] or {}).get("canon"), ((e["callee"] or {}).get("resolved") or {}).get("canon")):
+                    seq.append(("rec", field_path(e["args"][0])))
+            has_name = ("app", ("arg1", "as " + name, "name")) in seq
+            (st_ok if name == "Struct" else en_ok).append(has_name)
+            if name == "Struct":
+                # every field type rendered (rec on x.ty) is preceded by that field's name (ignoring literal separators)
+                last_name = None
+                for kind, pth in seq:
+                    if kind == "app" and pth and pth[-1] == "name" and pth != ("arg1", "as Struct", "name"):
+                        last_name = pth[:-1]
+                    elif kind == "rec" and pth and pth[-1] == "ty":
+                        fld.append(last_name == pth[:-1])
+                        last_name = None
+        run_.check(bool(st_ok) and all(st_ok), "N", "struct name + fields", "a top-level struct must render its own name on every path", root.where())
+        run_.check(bool(en_ok) and all(en_ok), "N", "enum name + variants", "a top-level enum must render its own name on every path", root.where())
+        run_.check(len(fld) >= 3 and all(fld), "N", "field names", "every named field must be rendered with its name right before its type (first and subsequent fields)", root.where(),
+                   detail="%d field renderings on the explored paths, each preceded by the field's name" % len(fld))
+        # variants go through a mapping closure &OwnedVariant -> String: name first, then the payload
+        vcl = [f for f in fns if f.canon.startswith(root.canon + "::{closure") and f.argc == 2 and "OwnedVariant" in f.locals[2]["ty"]]
         okv = False
         for f in vcl:
-            l = summ.lines(summ.summarize(F, f))
-            if len(l) == 1 and re.search(r"add_assign\(&\{#1\}, \(\*arg2\.name", l[0]) and "call(*arg1.0, (&*arg2.data, &_local))" in l[0] and \
-                    l[0].index("arg2.name") < l[0].index("arg2.data"):
-                okv = True
-        run_.check(okv, "N", "variant name before payload", "each variant must render its name and then its data", fm[0].where())
-        # data closure: every named field's name (first element and subsequent ones)
-        dcl = [f for f in cl.values() if any("as Struct" in l for l in summ.lines(summ.summarize(F, f)))]
-        okf = False
-        for f in dcl:
-            l = [x for x in summ.lines(summ.summarize(F, f)) if re.search(r"tag\(\*arg2\) == 3\b", x) and "[cut]" not in x]
-            one = [x for x in l if x.count(".name.0.pointer") == 1]
-            two = [x for x in l if x.count(".name.0.pointer") == 2]
-            visited = [x for x in l if "fmt_owned_dmt_to_buf(&*someval(" in x]
-            if one and two and all(x.count(".name.0.pointer") == x.count("fmt_owned_dmt_to_buf(&*someval(") for x in l):
-                okf = True
-        run_.check(okf, "N", "field names", "every named field must be rendered with its name (first and subsequent fields)", fm[0].where())
+            eng2 = sym.Engine(F, max_visits=3, inline=pol, models=sym.SLICE_MODELS, max_depth=10)
+            good = []
+            for p in eng2.run(f):
+                if p.status not in ("return", "cut"):
+                    continue
+                seq = []
+                for e in tbl.residual_calls(p):
+                    if e["name"] in APPEND and len(e["args"]) == 2:
+                        fp = field_path(e["args"][1])
+                        if fp and fp[-1] == "name":
+                            seq.append("name")
+                    if any("data" in field_path(a) for a in e["args"]) and e["name"] not in APPEND:
+                        seq.append("data")
+                good.append(bool(seq) and seq[0] == "name")
+            okv = okv or (bool(good) and all(good))
+        run_.check(okv, "N", "variant name before payload", "each variant must render its name and then its data", root.where())
     else:
-        run_.bad("N", "fmt_owned_dmt_to_buf", "formatter not found")
+        run_.bad("N", "fmt_owned_dmt_to_buf", "formatter root not found by signature")
     run_.floor("N", 4)
     run_.explanation = (
         "All %d functions/closures of the schema formatter and type-discovery walker (plus to_pseudocode, all_used_types, Display::fmt) are explored on all "
